@@ -61,6 +61,8 @@ func (obj DoubleFloat) Equal(other Object) (eq bool) {
 		eq = obj == DoubleFloat(to)
 	case Octet:
 		eq = obj == DoubleFloat(to)
+	case Bit:
+		eq = obj == DoubleFloat(to)
 	case SingleFloat:
 		eq = float64(obj) == float64(to)
 	case DoubleFloat:
